@@ -4,8 +4,10 @@
 //        input + executed schedule (IN DQ, what the model replays) and what the implementation
 //        did (OUT DQ: per step (kind.function.node) with nodes numbered by first appearance, per
 //        thread return values, drained contents)
-//   c17_deque witness                         the F15 schedule (one thread stalled before its
+//   c17_deque witness                         the (former) F15 schedule (one thread stalled before its
 //        link CAS in stabilize_right), same output format
+//   c17_deque witness2                        the same with the target link re-written by a push's
+//        private store (second half of the F15 repair)
 //   c17_deque seq <seed> <first> <count>      one thread, long random operation sequences (DIFF)
 // Every case derives its randomness from (seed, case id) so a run can be resumed after a case
 // that crashed or hung the real code (the driver restarts at the next id).
@@ -173,6 +175,20 @@ static Case witness_case()
     c.stall_nth = 0;
     c.stall_len = 1000000;    // until everybody else is done
     c.victim_first = true;
+    return c;
+}
+
+// the second half of F15: the target link R0.right is written by the PRIVATE STORE of push_left both
+// in its first and in its second incarnation (R0 is pushed on the left of Z, later everything to its
+// right is popped and X is pushed on its right: stabilize_right CASes (Z,t) -> (X,t+1)); if either
+// alloc_node or the private store restarts the tag, the second incarnation re-creates A's expected
+// value (X,t+1)
+static Case witness2_case()
+{
+    Case c = witness_case();
+    c.init = {{'r', 100}, {'l', 1}, {'l', 50}, {'R', 0}, {'l', 51}, {'r', 2}, {'R', 0}, {'l', 3}};
+    c.progs = {{{'r', 4}},
+        {{'R', 0}, {'L', 0}, {'R', 0}, {'l', 5}, {'l', 6}, {'R', 0}, {'R', 0}, {'L', 0}, {'r', 7}}};
     return c;
 }
 
@@ -360,11 +376,14 @@ int main(int argc, char** argv)
     std::signal(SIGABRT, die_handler);
     std::signal(SIGFPE, die_handler);
     std::signal(SIGALRM, die_handler);
-    if (mode == "witness")
+    if (mode == "witness" || mode == "witness2")
     {
         vctl::Rng rng(1);
         g_case = 0;
-        run_lock_case("w", witness_case(), rng);
+        if (mode == "witness")
+            run_lock_case("w", witness_case(), rng);
+        else
+            run_lock_case("w2", witness2_case(), rng);
         return 0;
     }
     for (long cs = first; cs < first + count; ++cs)
